@@ -241,6 +241,9 @@ theorem sim_decodeP : ∀ (ty : Ty), Sim (renorm ty) (decodeP ty) (decodeP (list
   | .box sz t => by
     simp only [decodeP, listify]
     exact Sim.descend (Sim.alloc _ _ (Sim.bind (sim_decodeP t) fun v => Sim.ascend (Sim.pure' (by simp [renorm]))))
+  | .wrap t => by
+    simp only [decodeP, listify]
+    exact Sim.descend (Sim.bind (sim_decodeP t) fun v => Sim.ascend (Sim.pure' (by simp [renorm])))
   | .range t => by
     simp only [decodeP, listify]
     exact Sim.bind (sim_decodeP t) fun a => Sim.bind (sim_decodeP t) fun b => Sim.pure' (by simp [renorm])
@@ -320,6 +323,7 @@ theorem wf_listify : ∀ (ty : Ty) (v : Val), wf (listify ty) v = wf ty v
       have e : wf (listify t) = wf t := funext (wf_listify t)
       rw [e]
   | .box sz t, v => by simp only [listify, wf]; exact wf_listify t v
+  | .wrap t, v => by simp only [listify, wf]; exact wf_listify t v
   | .range t, v => by
     cases v with
     | seq vs =>
@@ -371,6 +375,7 @@ theorem encode_listify : ∀ (ty : Ty) (v : Val), Spec.encode (listify ty) v = S
     cases v <;> simp only [listify, Spec.encode]
     case seq vs => rw [List.map_congr_left (fun v _ => encode_listify t v)]
   | .box sz t, v => by simp only [listify, Spec.encode]; exact encode_listify t v
+  | .wrap t, v => by simp only [listify, Spec.encode]; exact encode_listify t v
   | .range t, v => by
     cases v with
     | seq vs =>
@@ -421,6 +426,7 @@ theorem wireCanon_listify : ∀ (ty : Ty), noBits ty = true → wireCanon (listi
     have := wireCanon_listify t (by simpa [noBits] using h)
     cases k <;> simp [listify, listifyKind, wireCanon, this]
   | .box sz t, h => by simp only [listify, wireCanon]; exact wireCanon_listify t (by simpa [noBits] using h)
+  | .wrap t, h => by simp only [listify, wireCanon]; exact wireCanon_listify t (by simpa [noBits] using h)
   | .range t, h => by simp only [listify, wireCanon]; exact wireCanon_listify t (by simpa [noBits] using h)
   | .enum idxs ts, h => by simp only [listify, wireCanon]; exact wireCanonList_listify ts (by simpa [noBits] using h)
 
@@ -443,6 +449,7 @@ theorem widthsOk_listify : ∀ (ty : Ty), widthsOk (listify ty) = widthsOk ty
   | .garray n t => by simp [listify, widthsOk, widthsOk_listify t]
   | .seq k sz t => by simp [listify, widthsOk, widthsOk_listify t]
   | .box sz t => by simp [listify, widthsOk, widthsOk_listify t]
+  | .wrap t => by simp [listify, widthsOk, widthsOk_listify t]
   | .range t => by simp [listify, widthsOk, widthsOk_listify t]
   | .enum idxs ts => by simp [listify, widthsOk, widthsOkList_listify ts]
 
@@ -467,6 +474,7 @@ theorem layoutOk_listify : ∀ (ty : Ty), layoutOk ty = true → layoutOk (listi
     have := layoutOk_listify t h.1
     cases k <;> simp_all [listify, listifyKind, layoutOk]
   | .box sz t, h => by simp only [listify, layoutOk]; exact layoutOk_listify t (by simpa [layoutOk] using h)
+  | .wrap t, h => by simp only [listify, layoutOk]; exact layoutOk_listify t (by simpa [layoutOk] using h)
   | .range t, h => by simp only [listify, layoutOk]; exact layoutOk_listify t (by simpa [layoutOk] using h)
   | .enum idxs ts, h => by simp only [listify, layoutOk]; exact layoutOkList_listify ts (by simpa [layoutOk] using h)
 
